@@ -287,6 +287,12 @@ def cases(tier, seed):
     add("spelled_u7b_debug_variant", "Debug", "n1", SpelledAttr([PH("name")], spelling="u7b"), enum=True)
     add("spelled_raw_mod_width", "Display", "t1", SpelledAttr([PH("_0", width=5)], spelling="raw"))                         # inert
     add("spelled_rawhash_ctx_text", "Display", "t1", SpelledAttr(["a", PH("_0")], spelling="rawhash"))                      # inert
+    # N. `#` on a DISPLAY-typed lone placeholder is a modifier like any other (seed C02 r5_2: it was delegated)                    (inert)
+    add("mod_alt_disp_fieldname", "Display", "t1", Attr([PH("_0", alt=True)]))
+    add("mod_alt_disp_imp_pos", "Display", "t1", Attr([PH(None, alt=True)], ["_0"]))
+    add("mod_alt_disp_named", "Display", "n1", Attr([PH("name", alt=True)]))
+    add("variant_mod_alt_disp", "Display", "t1", Attr([PH("_0", alt=True)]), enum=True)
+    add("debug_mod_alt_disp", "Debug", "t1", Attr([PH("_0", alt=True)]))
     if tier == "thorough":
         # the wider product: every trait x every reference form x (no modifier | each modifier), context none;
         # a seeded sample of trait x reference x context x modifier beyond that
